@@ -243,6 +243,10 @@ class Built:
         """clock domain seam (C05 perm_drivers, C10): the group gets its own ClockDriver, optionally
         gated by an enable wire; 'idiom' = 'gatedclock' routes the enable through a GatedClock block"""
         en = self.wire(drv['en']) if drv.get('en') else None
+        if drv.get('wire'):
+            # a second clock domain with its own clock wire (only meaningful for Verilog generation: the simulator clocks every domain)
+            g.clockDriver = py4hw.ClockDriver(drv['name'], base=self.hw.clockDriver, enable=en, wire=self.wire(drv['wire']))
+            return
         if en is not None and drv.get('idiom') == 'gatedclock':
             from py4hw.logic.clock import GatedClock
             enout = g.wire('gclk_en', en.getWidth())
